@@ -326,31 +326,32 @@ impl Drop for Cqueue {
         } else {
             None
         };
-        // re-enable on every way out, the drain re-raises a select coroutine's panic
-        struct EnableCancel(Option<&'static Cancel>);
-        impl Drop for EnableCancel {
-            fn drop(&mut self) {
-                if let Some(c) = self.0 {
-                    c.enable_cancel();
-                }
-            }
-        }
         if let Some(c) = cancel {
             c.disable_cancel();
         }
-        let _enable = EnableCancel(cancel);
-        // run the rest event
+        // run the rest event. a panic of a select coroutine that is first seen
+        // here must not cut the drain short, the others still use the cqueue
+        let mut panic = None;
         loop {
-            match self.poll(None) {
-                Ok(_) => {}
-                Err(_e @ PollError::Finished) => break,
-                _ => unreachable!("cqueue drop unreachable"),
+            match panic::catch_unwind(panic::AssertUnwindSafe(|| self.poll(None))) {
+                Ok(Ok(_)) => {}
+                Ok(Err(_e @ PollError::Finished)) => break,
+                Ok(_) => unreachable!("cqueue drop unreachable"),
+                Err(e) => {
+                    panic.get_or_insert(e);
+                }
             }
         }
         // all the coroutines are finished, but the threads that ran their last
         // steps may still be about to wake us up
         while self.in_flight.load(Ordering::SeqCst) != 0 {
             crate::yield_now::yield_now();
+        }
+        if let Some(c) = cancel {
+            c.enable_cancel();
+        }
+        if let Some(e) = panic {
+            panic::resume_unwind(e);
         }
     }
 }
